@@ -185,6 +185,10 @@ def check_opts(chk, tables):
         for r in paths:
             if r.outcome == 'unsupported':
                 chk.undecide('Opts::new: %s' % r.value); continue
+            sv = z3.Solver(); sv.add(*r.pc)
+            given = 'given'
+            if has_path and sv.check() == z3.sat:
+                given = sv.model().eval(arg_path.v, model_completion=True).as_string() or 'given'
             chosen = {}
             unknown = False
             for c in ('opt', 'vul', 'qa'):
@@ -198,32 +202,42 @@ def check_opts(chk, tables):
                 if r.outcome == 'panic':
                     chk.ok()
                 else:
-                    report_opts(chk, 'unknown-name-accepted', label, 'an unknown pattern name does not make the run fail', has_path, has_toml, chosen, contracts_exists)
+                    report_opts(chk, 'unknown-name-accepted', label, 'an unknown pattern name does not make the run fail', has_path, has_toml, chosen, contracts_exists, given)
                 continue
             if r.outcome == 'exit':
                 if want_path == 'default' and not contracts_exists and r.value.code != 0:
                     chk.ok()
                 else:
-                    report_opts(chk, 'unexpected-exit', label, 'exits with status %r' % r.value.code, has_path, has_toml, chosen, contracts_exists)
+                    report_opts(chk, 'unexpected-exit', label, 'exits with status %r' % r.value.code, has_path, has_toml, chosen, contracts_exists, given)
                 continue
             if r.outcome == 'panic':
-                report_opts(chk, 'panic', label, 'panics: %s' % r.value.msg, has_path, has_toml, chosen, contracts_exists); continue
+                report_opts(chk, 'panic', label, 'panics: %s' % r.value.msg, has_path, has_toml, chosen, contracts_exists, given); continue
             if want_path == 'default' and not contracts_exists:
-                report_opts(chk, 'missing-directory-accepted', label, 'continues although ./contracts does not exist', has_path, has_toml, chosen, contracts_exists)
+                report_opts(chk, 'missing-directory-accepted', label, 'continues although ./contracts does not exist', has_path, has_toml, chosen, contracts_exists, given)
                 continue
             o = r.value
             path_v, opt_v, vul_v, qa_v = o.fields
             got_path = 'arg' if path_v is arg_path else 'toml' if path_v is toml_dir else ('default' if path_v.concrete and path_v.v == './contracts' else repr(path_v))
             problems = []
             if got_path != want_path:
-                problems.append('analyses the %s directory, expected the %s one' % (got_path, want_path))
+                # different objects may still be equal strings under the path condition (e.g. --path ./contracts)
+                want_v = {'arg': arg_path, 'toml': toml_dir, 'default': Str('./contracts')}[want_path]
+                chk.queries += 1
+                sv.push(); sv.add(path_v.z() != want_v.z())
+                differs = sv.check() == z3.sat
+                if differs:
+                    mm = sv.model()
+                    given = mm.eval(arg_path.v, model_completion=True).as_string() or given
+                sv.pop()
+                if differs:
+                    problems.append('analyses the %s directory, expected the %s one' % (got_path, want_path))
             for c, vec in (('opt', opt_v), ('vul', vul_v), ('qa', qa_v)):
                 got = [x.variant for x in en_items(vec)]
                 want = [tables[c][0][n] for n in chosen[c]] if has_toml else tables[c][1]
                 if got != want:
                     problems.append('%s patterns %r, expected %r' % (c, got, want))
             if problems:
-                report_opts(chk, 'wrong-options', label, '; '.join(problems), has_path, has_toml, chosen, contracts_exists)
+                report_opts(chk, 'wrong-options', label, '; '.join(problems), has_path, has_toml, chosen, contracts_exists, given)
             else:
                 chk.ok()
     chk.sample({'Opts::new': 'presence of --path / --toml / ./contracts (8 combinations) x pattern lists (empty, one known name, unknown name, two names) per category; paths symbolic'})
@@ -233,17 +247,20 @@ def en_items(vec):
     return vec.items
 
 
-def report_opts(chk, role, label, why, has_path, has_toml, chosen, contracts_exists):
+def report_opts(chk, role, label, why, has_path, has_toml, chosen, contracts_exists, given='given'):
     """confirm with the real Opts::new (opts_probe binary: src/opts.rs compiled unchanged) in a scratch directory"""
     d = os.path.join(chk.native.dir, 'opts%d' % chk.native.n)
     chk.native.n += 1
-    os.makedirs(os.path.join(d, 'given'))
+    if not re.match(r'^[A-Za-z0-9_./-]{1,40}$', given) or given.startswith('/') or '..' in given:
+        given = 'given'
     os.makedirs(os.path.join(d, 'fromtoml'))
     if contracts_exists:
         os.makedirs(os.path.join(d, 'contracts'))
+    if has_path and not (os.path.normpath(given) == 'contracts' and not contracts_exists):
+        os.makedirs(os.path.join(d, given), exist_ok=True)
     argv = [os.path.join(chk.world.build, 'opts_probe')]
     if has_path:
-        argv += ['--path', 'given']
+        argv += ['--path', given]
     if has_toml:
         q = lambda l: '[' + ', '.join('"%s"' % x for x in l) + ']'
         open(os.path.join(d, 'cfg.toml'), 'w').write('path = "fromtoml"\noptimizations = %s\nvulnerabilities = %s\nqa = %s\n' % (
@@ -253,7 +270,7 @@ def report_opts(chk, role, label, why, has_path, has_toml, chosen, contracts_exi
     chk.validated += 1
     observed = {'exit': p.returncode, 'stdout': p.stdout[-600:], 'stderr': p.stderr[-300:]}
     # does the real program show the problem?
-    want_path = 'given' if has_path else ('fromtoml' if has_toml else './contracts')
+    want_path = given if has_path else ('fromtoml' if has_toml else './contracts')
     real = False
     unknown = has_toml and any('no_such_pattern' in chosen[c] for c in chosen)
     if unknown:
